@@ -329,6 +329,26 @@ func (r *Runner) Run() int {
 			if !r.NoReplay {
 				status, detail = r.replay(h, res.Spec, v, path)
 				replayed++
+				// the representative may hinge on something the native run cannot show (a timer the
+				// model lets fire early, say) while another counterexample of the same group - with
+				// different shape choices - does reproduce: try up to three of those
+				tried := map[string]bool{shapeKey(v): true}
+				for _, alt := range vs[1:] {
+					if status != "not-reproduced" || len(tried) >= 4 {
+						break
+					}
+					k := shapeKey(alt)
+					if tried[k] {
+						continue
+					}
+					tried[k] = true
+					ap := r.writeReplay(h, res.Spec, alt)
+					st2, d2 := r.replay(h, res.Spec, alt, ap)
+					replayed++
+					if st2 != "not-reproduced" {
+						v, path, status, detail = alt, ap, st2, d2
+					}
+				}
 			}
 			if status == "reproduced-other" {
 				status = "reproduced"
@@ -845,4 +865,22 @@ func cmdReplay(args []string) int {
 		return 0
 	}
 	return 1
+}
+
+
+// shapeKey: the shape choices of a counterexample (its integer inputs other than clock
+// readings and schedule decisions), used to pick differently shaped alternatives for replay.
+func shapeKey(v *sym.Violation) string {
+	var ks []string
+	for k, x := range v.Inputs {
+		if strings.HasPrefix(k, "now#") || strings.HasPrefix(k, "sched#") {
+			continue
+		}
+		switch n := x.(type) {
+		case int, int64, uint64, float64, bool:
+			ks = append(ks, fmt.Sprintf("%s=%v", k, n))
+		}
+	}
+	sort.Strings(ks)
+	return strings.Join(ks, ",")
 }
